@@ -94,11 +94,22 @@ Definition fs_mkdir (p : str) (f : fs) : option errno * fs :=
             end
   end.
 
-Definition missing_errno (p : str) (f : fs) : errno :=
-  match parent_is_dir f p with
-  | Some ENOTDIR => ENOTDIR       (* a component of the prefix is not a directory *)
-  | _ => ENOENT
+(* errno of a path that does not resolve: ENOTDIR when some ancestor exists and is
+   not a directory, ENOENT otherwise *)
+Fixpoint anc_not_dir (fuel : nat) (f : fs) (p : str) : bool :=
+  match fuel with
+  | O => false
+  | S k =>
+      let d := dirname p in
+      match lookup f d with
+      | Some NDir => false
+      | Some _ => true
+      | None => if str_eqb d p then false else anc_not_dir k f d
+      end
   end.
+
+Definition missing_errno (p : str) (f : fs) : errno :=
+  if anc_not_dir (length p) f p then ENOTDIR else ENOENT.
 
 Definition fs_rmdir (p : str) (f : fs) : option errno * fs :=
   match lookup f p with
